@@ -24,7 +24,15 @@ IsLeafTarget(p) == p \in LeafDP \cup LeafListDP
 OpWrites(o) ==
   CASE o.k \in {"del", "adel"} -> << >>
     [] o.pay.t \in {"leaf", "ll"} -> (o.p :> o.pay.v)
-    [] o.pay.t = "json" -> Flat(DocTree(o.pay.d))
+    [] o.pay.t = "json" ->
+         \* the leaves the document itself carries: the key leaves of list entries the PATH goes
+         \* through on its way to a node BELOW them are implied by the path and are not written by
+         \* the payload (gnmidiff compares the leaves an operation names, not the entries a server
+         \* would have to create).  A document addressed to the entry itself does carry its keys
+         \* (with a schema gnmidiff unmarshals it into the entry; without one the comparison with
+         \* the leaf-by-leaf form is not decidable and the harness skips it).
+         LET f == Flat(DocTree(o.pay.d)) IN
+         Restrict(f, {x \in DOMAIN f : ~(IsKeyLeaf(x) /\ StrictlyBelow(Front(x), o.p) /\ x \notin DOMAIN o.pay.d)})
 
 RECURSIVE WritesOf(_)
 WritesOf(s) == IF s = << >> THEN << >> ELSE OpWrites(Last(s)) @@ WritesOf(Front(s))    \* later operations win
@@ -56,7 +64,7 @@ LeafOp(x, v) == [k |-> "upd", p |-> x, pay |-> IF x \in LeafListDP THEN [t |-> "
 \* one JSON update -> the equivalent leaf updates
 SplitOp(o) ==
   IF o.k = "upd" /\ o.pay.t = "json"
-  THEN LET f == Flat(DocTree(o.pay.d)) IN [i \in 1..Cardinality(DOMAIN f) |-> LeafOp(SetSeq(DOMAIN f)[i], f[SetSeq(DOMAIN f)[i]])]
+  THEN LET f == OpWrites(o) IN [i \in 1..Cardinality(DOMAIN f) |-> LeafOp(SetSeq(DOMAIN f)[i], f[SetSeq(DOMAIN f)[i]])]
   ELSE <<o>>
 
 RECURSIVE FlatMap(_)
